@@ -129,25 +129,31 @@ def run(chk):
         kind = rng.choice(["commuting", "commuting", "zero-coupling", "weak"])
         if it < 2:
             nst, kind = [2, 3][it], "zero-coupling"          # every run: the minimal slice numbers with a complex Hamiltonian
+        elif it < 4:
+            kind = "commuting"                                # every run: coupled commuting models far above the zero of energy
         o = np.array([rng.choice([-1.0, 0.0, 0.5, 1.0]) for _ in range(d)])
         alpha = 0.0 if kind == "zero-coupling" else (0.3 if kind == "commuting" else 1e-4)
         corr = oqupy.PowerLawSD(alpha=alpha, zeta=rng.choice([1, 3]), cutoff=rng.choice([1.0, 3.0]),
                                 cutoff_type=rng.choice(["exponential", "gaussian"]), temperature=T)
+        # the thermal state does not depend on the zero of energy: offsets of many T in both directions
+        E0 = rng.choice([0.0, 0.0, 12.0, 20.0, -15.0]) * T if it >= 4 else [18.0, 0.0, 24.0, 16.0][it] * T
         if kind == "commuting":
-            E = np.array([rng.uniform(-1, 1) for _ in range(d)])
+            E = np.array([rng.uniform(-1, 1) for _ in range(d)]) + E0
             H = np.diag(E).astype(complex)
         else:
             a = np.array([[rng.gauss(0, 1) + 1j * rng.gauss(0, 1) for _ in range(d)] for _ in range(d)])
-            H = (a + a.conj().T) / 3
+            H = (a + a.conj().T) / 3 + E0 * np.eye(d)
         bath = oqupy.Bath(np.diag(o), corr)
-        info = {"kind": kind, "d": d, "T": T, "n_steps": nst, "o": list(o)}
+        info = {"kind": kind, "d": d, "T": T, "n_steps": nst, "o": list(o), "energy_offset_over_T": E0 / T}
         try:
-            g = oqupy.GibbsTempo(oqupy.System(H), bath, oqupy.GibbsParameters(n_steps=nst, epsrel=1e-10))
+            gp_eps = 1e-10 if (it % 2 == 0 or kind != "commuting") else 1e-6          # two truncation tolerances
+            info["epsrel"] = gp_eps
+            g = oqupy.GibbsTempo(oqupy.System(H), bath, oqupy.GibbsParameters(n_steps=nst, epsrel=gp_eps))
             quiet(g.compute, progress_type="silent")
             s1 = g.get_state()
             if it % 3 == 0:
                 # the one-call wrapper returns the dynamics of the same computation
-                dw_ = quiet(oqupy.gibbs_tempo_compute, oqupy.System(H), bath, oqupy.GibbsParameters(n_steps=nst, epsrel=1e-10), progress_type="silent")
+                dw_ = quiet(oqupy.gibbs_tempo_compute, oqupy.System(H), bath, oqupy.GibbsParameters(n_steps=nst, epsrel=gp_eps), progress_type="silent")
                 sw_ = np.array(dw_.states[-1]) if hasattr(dw_, "states") else np.array(dw_)      # the wrapper returns the state
                 if not np.allclose(sw_ / np.trace(sw_), s1, rtol=0, atol=1e-12):
                     chk.fail("gibbs-wrapper-differs", "gibbs_tempo_compute differs from GibbsTempo(...).compute()", info)
@@ -188,6 +194,34 @@ def run(chk):
                     "zero-coupling": "exp(-H/T)/Z", "weak": "exp(-H/T)/Z (weak coupling)"}[kind]
             tr = np.abs(s1.T - want).max()
             chk.fail("gibbs-state-wrong:" + kind, f"GibbsTempo deviates from {what} by {dev:.2e} (its transpose by {tr:.2e}); n_steps={nst}", info)
+
+    # ---- (b2) the zero of energy is irrelevant: a sweep of offsets H + E0 (E0/T from -15 to 30), two tolerances -----------
+    for it in range(4 if thorough else 2):
+        d = 3
+        T = rng.choice([0.5, 1.0])
+        o = np.array([1.0, -0.5, 0.5]) if it % 2 == 0 else np.array([rng.choice([-1.0, 0.0, 0.5, 1.0]) for _ in range(d)])
+        E = np.array([0.0, 0.7, 1.3]) * rng.choice([1.0, 3.0])
+        corr = oqupy.PowerLawSD(alpha=0.1, zeta=1, cutoff=3.0, cutoff_type="exponential", temperature=T)
+        bath = oqupy.Bath(np.diag(o), corr)
+        eps_ = [1e-6, 1e-9][it % 2]
+        ref_state = None
+        for x in [0.0, -15.0, 8.0, 12.0, 16.0, 20.0, 24.0, 30.0]:
+            info = {"kind": "energy-offset", "T": T, "o": list(o), "E": list(E), "epsrel": eps_, "energy_offset_over_T": x}
+            try:
+                g = oqupy.GibbsTempo(oqupy.System(np.diag(E + x * T).astype(complex)), bath, oqupy.GibbsParameters(n_steps=6, epsrel=eps_))
+                quiet(g.compute, progress_type="silent")
+                st = g.get_state()
+            except Exception as ex:
+                chk.fail("gibbs-raises", f"GibbsTempo raises {ex!r}", info)
+                continue
+            chk.search_cases += 1
+            chk.count("gibbs_energy_offsets")
+            if ref_state is None:
+                ref_state = st
+            elif np.abs(st - ref_state).max() > 1e3 * eps_:
+                chk.fail("gibbs-depends-on-energy-zero", f"GibbsTempo: adding {x} T to the Hamiltonian changes the thermal state by {np.abs(st - ref_state).max():.2e} "
+                         f"(epsrel {eps_})", info)
+        chk.case({"kind": "energy-offset", "T": T, "o": list(o), "epsrel": eps_}, ("offsets", T, tuple(o), eps_, it))
 
     # ---- (c) the Matsubara cells tile the imaginary-time triangle [0, 1/T]: their total is lambda / T exactly ------------
     # (int_0^beta (beta - u) K(u) du with K(u) = K(beta - u)); this is what makes the commuting closed form independent of n
